@@ -3,6 +3,7 @@ package c06
 import (
 	"strconv"
 	"strings"
+	"verifharness/internal/gen"
 )
 
 // Node is one node of a typed expression tree. Plain JSON.
@@ -119,6 +120,39 @@ func fnName(s string) string {
 	return s
 }
 
+// keywordNames: column names that start with or contain SQL keywords (or, is, and, not, in); used when a case
+// sets Names. The expression trees and the reference keep the short names.
+var keywordNames = map[string]string{"a": "order_id", "b": "is_ok", "s": "island", "u": "notes", "f": "android", "n": "nothing_n", "m": "inner_m"}
+
+// colAlias is consulted by renderTo for column nodes (nil: names as they are).
+var colAlias map[string]string
+
+// renderCase renders the case's expression the way the case writes it (keyword case, function-name case, column names).
+func renderCase(c Case) string {
+	if c.Names {
+		colAlias = keywordNames
+		defer func() { colAlias = nil }()
+	}
+	return renderStyle2(c.Expr, c.Lower, c.Title)
+}
+
+// engineRow is the row as the engine gets it (columns renamed when the case sets Names).
+func engineRow(c Case, r gen.Row) map[string]any {
+	m := r.Go()
+	if !c.Names {
+		return m
+	}
+	out := make(map[string]any, len(m))
+	for k, v := range m {
+		if nk, ok := keywordNames[k]; ok {
+			out[nk] = v
+		} else {
+			out[k] = v
+		}
+	}
+	return out
+}
+
 func renderStyle2(n *Node, lower, title bool) string {
 	var sb strings.Builder
 	titleFns = title
@@ -157,7 +191,13 @@ func lowerLogic(s string) string {
 
 func renderTo(sb *strings.Builder, n *Node) {
 	switch n.Op {
-	case "col", "num":
+	case "col":
+		if a, ok := colAlias[n.V]; ok {
+			sb.WriteString(a)
+		} else {
+			sb.WriteString(n.V)
+		}
+	case "num":
 		sb.WriteString(n.V)
 	case "str":
 		sb.WriteString(quote(n.V))
